@@ -188,8 +188,13 @@ Definition buffer_batch_get := buffer_batch_get_gen shrink_loop.
 Definition buffer_batch_get_prefix := buffer_batch_get_gen shrink_loop_prefix.
 
 (* ---------- the buffer: value log (newest first) + staging positions ---------- *)
-Record mbuf := mk_mbuf { b_log : list kv; b_stages : list nat (* top first; log lengths *) }.
-Definition mbuf_empty : mbuf := mk_mbuf [] [].
+Record mbuf := mk_mbuf {
+  b_log : list kv;
+  b_stages : list nat;   (* top first; log lengths *)
+  b_cp : nat             (* lastCheckpoint (fix 6b4091a): latest position handed out by Checkpoint or reverted to,
+                            lowered by a Cleanup that cuts below it; 0 = none *)
+}.
+Definition mbuf_empty : mbuf := mk_mbuf [] [] 0.
 
 Inductive op :=
 | OSet (k : key) (v : val)
@@ -224,17 +229,16 @@ Fixpoint try_swap (l : list kv) (k : key) (v : val) (room : nat) : option (list 
         end
   end.
 
+(* number of newest entries that may be modified in place: those above the top staging position
+   (CanModify(stage)) and above lastCheckpoint (CanModify(lastCheckpoint), fix 6b4091a) *)
 Definition room_of (st : mbuf) : nat :=
-  match b_stages st with
-  | [] => length (b_log st)
-  | p :: _ => length (b_log st) - p
-  end.
+  length (b_log st) - Nat.max (hd O (b_stages st)) (b_cp st).
 
 (* ip = true: the code as it is; ip = false: a buffer that always appends *)
 Definition write (ip : bool) (st : mbuf) (k : key) (v : val) : mbuf :=
   match (if ip then try_swap (b_log st) k v (room_of st) else None) with
-  | Some l' => mk_mbuf l' (b_stages st)
-  | None => mk_mbuf ((k, v) :: b_log st) (b_stages st)
+  | Some l' => mk_mbuf l' (b_stages st) (b_cp st)
+  | None => mk_mbuf ((k, v) :: b_log st) (b_stages st) (b_cp st)
   end.
 
 (* keep the n oldest entries *)
@@ -247,16 +251,26 @@ Definition step (ip : bool) (st : mbuf) (o : op) : mbuf :=
   match o with
   | OSet k v => if is_tomb v then st (* ErrCannotSetNilValue *) else write ip st k v
   | ODel k => write ip st k []
-  | OStaging => mk_mbuf (b_log st) (length (b_log st) :: b_stages st)
-  | ORelease h => if handle_live st h then mk_mbuf (b_log st) (tl (b_stages st)) else st
+  | OStaging => mk_mbuf (b_log st) (length (b_log st) :: b_stages st) (b_cp st)
+  | ORelease h => if handle_live st h then mk_mbuf (b_log st) (tl (b_stages st)) (b_cp st) else st
   | OCleanup h =>
-      if handle_live st h then mk_mbuf (truncate (hd O (b_stages st)) (b_log st)) (tl (b_stages st))
+      if handle_live st h
+      then mk_mbuf (truncate (hd O (b_stages st)) (b_log st)) (tl (b_stages st)) (Nat.min (b_cp st) (hd O (b_stages st)))
       else st
-  | OCheckpoint => st
-  | ORevert n => mk_mbuf (truncate n (b_log st)) (b_stages st)
+  | OCheckpoint => mk_mbuf (b_log st) (b_stages st) (length (b_log st))
+  | ORevert n => mk_mbuf (truncate n (b_log st)) (b_stages st) n
   end.
 
 Definition run (ip : bool) (ops : list op) (st : mbuf) : mbuf := fold_left (step ip) ops st.
+
+(* the buffer as it was before fix 6b4091a (regression witness only): checkpoints did not protect entries *)
+Definition step_prefix (st : mbuf) (o : op) : mbuf :=
+  match o with
+  | OSet k v => if is_tomb v then st else step true (mk_mbuf (b_log st) (b_stages st) O) o
+  | ODel k => step true (mk_mbuf (b_log st) (b_stages st) O) o
+  | _ => step true st o
+  end.
+Definition run_prefix (ops : list op) (st : mbuf) : mbuf := fold_left step_prefix ops st.
 
 (* results of the calls that return something / can fail; 0 = ok, 1 = error, 2 = panic *)
 Definition op_status (st : mbuf) (o : op) : nat :=
